@@ -289,6 +289,22 @@ def h_history(cx, layout, variant):
         fresh.gamma_method(S=0, fft=False)
         for e in ens:
             cx.expect(o.S[e] == 0.0, 'effective S = global[%s]' % e)
+    elif variant == 'global-change':
+        # an analysis with the defaults, then the global default changes: the next analysis must use the new default
+        # (nothing may have been cached in the class dictionaries by the first call)
+        o.gamma_method(fft=False)
+        cx.patch(pe.Obs, 'S_global', 0.0)
+        o.gamma_method(fft=False)
+        fresh.gamma_method(S=0, fft=False)
+        for e in ens:
+            cx.expect(o.S[e] == 0.0, 'effective S = new global default[%s]' % e, str(o.S[e]))
+    elif variant == 'other-object-first':
+        # another object on the same ensembles is analysed first with the defaults, then the global default changes
+        other = _mk(cx, layout)
+        other.gamma_method(fft=False)
+        cx.patch(pe.Obs, 'S_global', 0.0)
+        o.gamma_method(fft=False)
+        fresh.gamma_method(S=0, fft=False)
     elif variant == 'sequence':
         # earlier analyses with other parameters, then the one of interest
         o.gamma_method(S=0, fft=False)
@@ -302,6 +318,10 @@ def h_history(cx, layout, variant):
         o.gamma_method(S=1.25, fft=False)
     _same_outputs(cx, fresh, o, variant)
     _same_state(cx, o, snap, variant + ':untouched')
+    # the class-level parameter dictionaries are the user's: an analysis never writes to them
+    want = {'S_dict': {'zzz'}, 'tau_exp_dict': {'other'}, 'N_sigma_dict': {'e2'}}
+    for dn, keys in want.items():
+        cx.expect(set(getattr(pe.Obs, dn)) == keys, variant + ':%s not written by the analysis' % dn, str(sorted(getattr(pe.Obs, dn))))
     for e in ens:
         cx.expect(set(o.e_dvalue) == set(ens) and set(o.S) == set(ens), 'no stale ensemble entries left')
 
@@ -371,7 +391,7 @@ def jobs(tier, seed):
             add('affine', layout=lay, kind=kind, mode='s0')
     add('affine', layout=A, kind='add', mode='std')
     add('affine', layout={'e|r1': list(range(1, 8))}, kind='mul', mode='std')
-    for v in ('arg-over-dict', 'dict-over-global', 'global', 'sequence', 'repeat'):
+    for v in ('arg-over-dict', 'dict-over-global', 'global', 'global-change', 'other-object-first', 'sequence', 'repeat'):
         add('history', layout=A, variant=v)
         add('history', layout=D, variant=v)
     for lay, mode in ((A, 'std'), (B, 'kw'), (C, 's0'), (D, 'std')):
